@@ -41,7 +41,8 @@ INV_WHAT = {
     "CleanCloseComplete": "after a clean Close the database does not hold the whole binlog",
 }
 # events that mean the driver (or the engine) stopped working rather than misbehaved: undecided, with the log kept
-INFRA_EVENTS = ("Hung", "DiskErr", "ChildErr", "ChildExit", "AppendErr", "BlRunErr")
+RESTART_STEPS = ("NewFsBinlog", "OpenEngine", "Do(up)")
+INFRA_EVENTS = ("Hung", "DiskErr", "ChildErr", "ChildExit", "AppendErr")
 # actions every instance of a role / durability mode must exercise (vacuity, checked with -coverage)
 COMMON = {"DoRead", "ViewA", "ReadApply", "ReadSkip", "ReadCommit", "Crash", "Restart"}
 LIVE = {
@@ -152,6 +153,15 @@ def validate_mode(ctx, mode, path, stage):
                 ev = json.loads(lines[min(idx, len(lines) - 1)])
             except Exception:
                 ev = {}
+            if ev.get("ev") == "ChildErr" and ev.get("what") in RESTART_STEPS and ev.get("gen", 0) >= 2:
+                # the engine refused to start on the files a killed process left behind
+                a, b = run_of(lines, idx)
+                keep = ctx.save("restart_failed_%s.ndjson" % mode, "\n".join(lines[a:b]) + "\n")
+                head = json.loads(lines[a])
+                ctx.violation("restart-failed", "%s mode, run class %s: after a kill the engine does not start again: %s" % (
+                    mode, head.get("class"), json.dumps(ev)[:400]), keep)
+                accepted += sum(1 for ln in lines[:a] if '"ev":"Reset"' in ln)
+                continue
             if ev.get("ev") in INFRA_EVENTS:
                 a, b = run_of(lines, idx)
                 keep = ctx.save("stopped_%s.ndjson" % mode, "\n".join(lines[a:b]) + "\n")
